@@ -5,7 +5,7 @@ Open Scope N_scope.
 
 Section StmtInd.
   Variable P : stmt -> Prop.
-  Hypothesis Hasg : forall t, P (SAssignT t).
+  Hypothesis Hasg : forall sc t, P (SAssignT sc t).
   Hypothesis Htext : P SText.
   Hypothesis Hbreak : P SBreak.
   Hypothesis Hcont : P SContinue.
@@ -13,7 +13,8 @@ Section StmtInd.
   Hypothesis Huse : forall n, P (SUse n).
   Hypothesis Hif : forall b e, Forall P b -> Forall P e -> P (SIf b e).
   Hypothesis Hfor : forall r b e, Forall P b -> Forall P e -> P (SFor r b e).
-  Hypothesis Hinl : forall b, Forall P b -> P (SInline b).
+  Hypothesis Hinl : forall w b, Forall P b -> P (SInline w b).
+  Hypothesis Hsame : forall b, Forall P b -> P (SSame b).
   Hypothesis Hmac : forall ps b, Forall P b -> P (SMacro ps b).
   Hypothesis Hcb : forall ps k b, Forall P b -> P (SCallBlock ps k b).
   Hypothesis Hblk : forall b, Forall P b -> P (SBlock b).
@@ -21,33 +22,35 @@ Section StmtInd.
     let go := fix go (l : list stmt) : Forall P l :=
       match l with [] => Forall_nil P | x :: r => Forall_cons x (stmt_ind' x) (go r) end in
     match s with
-    | SAssignT t => Hasg t | SText => Htext | SBreak => Hbreak | SContinue => Hcont | SCallKw k => Hkw k | SUse n => Huse n
+    | SAssignT sc t => Hasg sc t | SText => Htext | SBreak => Hbreak | SContinue => Hcont | SCallKw k => Hkw k | SUse n => Huse n
     | SIf b e => Hif b e (go b) (go e)
     | SFor r b e => Hfor r b e (go b) (go e)
-    | SInline b => Hinl b (go b)
+    | SInline w b => Hinl w b (go b)
+    | SSame b => Hsame b (go b)
     | SMacro ps b => Hmac ps b (go b)
     | SCallBlock ps k b => Hcb ps k b (go b)
     | SBlock b => Hblk b (go b)
     end.
 End StmtInd.
 
-Lemma gen_eq il s :
-  gen il s =
+Lemma gen_eq il lf bf s :
+  gen il lf bf s =
   match s with
-  | SAssignT t => if can_assign t then Ok [PAssign t] else SyntaxErr
+  | SAssignT _ t => if can_assign t then Ok [PAssign t] else SyntaxErr
   | SText => Ok [PSimple]
   | SBreak => if il then Ok [PBreak] else SyntaxErr
   | SContinue => if il then Ok [PContinue] else SyntaxErr
-  | SCallKw kws => if nodupb kws then Ok [PCall kws] else SyntaxErr
+  | SCallKw kws => gen_call false lf bf kws
   | SUse _ => Ok [PSimple]
-  | SIf b e => match gens il b, gens il e with Ok pb, Ok pe => Ok [PIf pb; PIf pe] | _, _ => SyntaxErr end
-  | SFor false b e => match gens true b, gens il e with Ok pb, Ok pe => Ok [PFor pb; PIf pe] | _, _ => SyntaxErr end
-  | SFor true b e => match gens true b, gens false e with
+  | SIf b e => match gens il lf bf b, gens il lf bf e with Ok pb, Ok pe => Ok [PIf pb; PIf pe] | _, _ => SyntaxErr end
+  | SFor false b e => match gens true true false b, gens il false false e with Ok pb, Ok pe => Ok [PFor pb; PIf pe] | _, _ => SyntaxErr end
+  | SFor true b e => match gens true true false b, gens false false false e with
                      | Ok pb, Ok pe => Ok [PDef [] [PFor pb; PIf pe]; PSimple] | _, _ => SyntaxErr end
-  | SInline b => gens il b
-  | SMacro ps b => if nodupb ps then match gens false b with Ok pb => Ok [PDef (ps ++ specials ps b) pb; PSimple] | SyntaxErr => SyntaxErr end else SyntaxErr
-  | SCallBlock ps kws b => if nodupb ps && nodupb kws then match gens false b with Ok pb => Ok [PDef (ps ++ specials ps b) pb; PCall kws] | SyntaxErr => SyntaxErr end else SyntaxErr
-  | SBlock b => match gens false b with Ok pb => Ok [PDef [] pb; PSimple] | SyntaxErr => SyntaxErr end
+  | SInline _ b => gens il false false b
+  | SSame b => gens il lf bf b
+  | SMacro ps b => if nodupb ps then match gens false false false b with Ok pb => Ok [PDef (ps ++ specials ps b) pb; PSimple] | SyntaxErr => SyntaxErr end else SyntaxErr
+  | SCallBlock ps kws b => if nodupb ps then match gens false false false b, gen_call true lf bf kws with Ok pb, Ok pc => Ok (PDef (ps ++ specials ps b) pb :: pc) | _, _ => SyntaxErr end else SyntaxErr
+  | SBlock b => match gens false false true b with Ok pb => Ok [PDef [] pb; PSimple] | SyntaxErr => SyntaxErr end
   end.
 Proof. destruct s; try reflexivity. Qed.
 
@@ -103,40 +106,63 @@ Section Wf.
   Lemma forallb_app (f : py -> bool) a b : forallb f (a ++ b) = forallb f a && forallb f b.
   Proof. induction a as [|x r IH]; cbn [app forallb]; [reflexivity|]. now rewrite IH, andb_assoc. Qed.
 
-  Lemma gens_ok l : Forall (fun s => forall il t, gen il s = Ok t -> forallb (py_ok pynorm il) t = true) l ->
-    forall il t, gens il l = Ok t -> forallb (py_ok pynorm il) t = true.
+  Lemma extras_nodup fc lf bf : NoDup (extras fc lf bf).
+  Proof. destruct fc, lf, bf; cbn; repeat constructor; cbn; intuition discriminate. Qed.
+
+  Lemma disjb_spec a b : disjb a b = true -> forall x, In x a -> ~ In x b.
   Proof.
-    intros H. induction H as [|x r Hx Hr IH]; intros il t Hg; cbn [gens] in Hg.
-    - injection Hg as <-. reflexivity.
-    - destruct (gen il x) as [a|] eqn:Ea; [|discriminate]. destruct (gens il r) as [b|] eqn:Eb; [|discriminate].
-      injection Hg as <-. rewrite forallb_app, (Hx il a Ea), (IH il b Eb). reflexivity.
+    unfold disjb. rewrite forallb_forall. intros H x Hx Hb. specialize (H x Hx).
+    apply negb_true_iff in H. apply memb_in in Hb. congruence.
   Qed.
 
-  Theorem gen_wf : forall s il t, gen il s = Ok t -> forallb (py_ok pynorm il) t = true.
+  (* the keyword list of an emitted call — explicit keywords followed by the engine's own — is
+     accepted by the Python compiler *)
+  Lemma gen_call_ok fc lf bf kws il t : gen_call fc lf bf kws = Ok t -> forallb (py_ok pynorm il) t = true.
   Proof.
-    induction s as [tg| | | |k|n|b e Hb He|r b e Hb He|b Hb|ps b Hb|ps k b Hb|b Hb] using stmt_ind';
-      intros il t H; rewrite gen_eq in H.
+    unfold gen_call. destruct (nodupb kws) eqn:E; [|discriminate]. destruct (disjb kws (extras fc lf bf)) eqn:D; [|discriminate].
+    cbn [andb]. intros H. injection H as <-. cbn [forallb py_ok andb]. rewrite andb_true_r.
+    apply nodupb_map. apply nodupb_NoDup. apply nodup_app; [now apply nodupb_NoDup|apply extras_nodup|exact (disjb_spec _ _ D)].
+  Qed.
+
+  Definition GenOk (s : stmt) : Prop :=
+    forall il lf bf t, gen il lf bf s = Ok t -> forallb (py_ok pynorm il) t = true.
+
+  Lemma gens_ok l : Forall GenOk l ->
+    forall il lf bf t, gens il lf bf l = Ok t -> forallb (py_ok pynorm il) t = true.
+  Proof.
+    intros H. induction H as [|x r Hx Hr IH]; intros il lf bf t Hg; cbn [gens] in Hg.
+    - injection Hg as <-. reflexivity.
+    - destruct (gen il lf bf x) as [a|] eqn:Ea; [|discriminate]. destruct (gens il lf bf r) as [b|] eqn:Eb; [|discriminate].
+      injection Hg as <-. rewrite forallb_app, (Hx il lf bf a Ea), (IH il lf bf b Eb). reflexivity.
+  Qed.
+
+  Theorem gen_wf : forall s il lf bf t, gen il lf bf s = Ok t -> forallb (py_ok pynorm il) t = true.
+  Proof.
+    induction s as [sc tg| | | |k|n|b e Hb He|r b e Hb He|w b Hb|b Hb|ps b Hb|ps k b Hb|b Hb] using stmt_ind';
+      intros il lf bf t H; rewrite gen_eq in H.
     - destruct (can_assign tg) eqn:E; [|discriminate]. injection H as <-. cbn [forallb py_ok andb].
       now rewrite (can_assign_py_ok tg E).
     - injection H as <-. reflexivity.
     - destruct il; [injection H as <-; reflexivity|discriminate].
     - destruct il; [injection H as <-; reflexivity|discriminate].
-    - destruct (nodupb k) eqn:E; [|discriminate]. injection H as <-. cbn [forallb py_ok andb]. now rewrite (nodupb_map k E).
+    - exact (gen_call_ok _ _ _ _ il t H).
     - injection H as <-. reflexivity.
-    - destruct (gens il b) as [pb|] eqn:Eb; [|discriminate]. destruct (gens il e) as [pe|] eqn:Ee; [|discriminate].
-      injection H as <-. cbn [forallb py_ok andb]. now rewrite (gens_ok b Hb il pb Eb), (gens_ok e He il pe Ee).
+    - destruct (gens il lf bf b) as [pb|] eqn:Eb; [|discriminate]. destruct (gens il lf bf e) as [pe|] eqn:Ee; [|discriminate].
+      injection H as <-. cbn [forallb py_ok andb]. now rewrite (gens_ok b Hb _ _ _ pb Eb), (gens_ok e He _ _ _ pe Ee).
     - destruct r.
-      + destruct (gens true b) as [pb|] eqn:Eb; [|discriminate]. destruct (gens false e) as [pe|] eqn:Ee; [|discriminate].
-        injection H as <-. cbn [forallb py_ok andb]. now rewrite (gens_ok b Hb true pb Eb), (gens_ok e He false pe Ee).
-      + destruct (gens true b) as [pb|] eqn:Eb; [|discriminate]. destruct (gens il e) as [pe|] eqn:Ee; [|discriminate].
-        injection H as <-. cbn [forallb py_ok andb]. now rewrite (gens_ok b Hb true pb Eb), (gens_ok e He il pe Ee).
-    - exact (gens_ok b Hb il t H).
-    - destruct (nodupb ps) eqn:E; [|discriminate]. destruct (gens false b) as [pb|] eqn:Eb; [|discriminate].
-      injection H as <-. cbn [forallb py_ok andb]. rewrite (nodupb_map _ (specials_nodup ps b E)), (gens_ok b Hb false pb Eb). reflexivity.
-    - destruct (nodupb ps) eqn:E; [|discriminate]. destruct (nodupb k) eqn:Ek; [|discriminate]. cbn [andb] in H.
-      destruct (gens false b) as [pb|] eqn:Eb; [|discriminate].
-      injection H as <-. cbn [forallb py_ok andb]. rewrite (nodupb_map _ (specials_nodup ps b E)), (gens_ok b Hb false pb Eb), (nodupb_map k Ek). reflexivity.
-    - destruct (gens false b) as [pb|] eqn:Eb; [|discriminate].
-      injection H as <-. cbn [forallb py_ok andb]. now rewrite (gens_ok b Hb false pb Eb).
+      + destruct (gens true true false b) as [pb|] eqn:Eb; [|discriminate]. destruct (gens false false false e) as [pe|] eqn:Ee; [|discriminate].
+        injection H as <-. cbn [forallb py_ok andb]. now rewrite (gens_ok b Hb _ _ _ pb Eb), (gens_ok e He _ _ _ pe Ee).
+      + destruct (gens true true false b) as [pb|] eqn:Eb; [|discriminate]. destruct (gens il false false e) as [pe|] eqn:Ee; [|discriminate].
+        injection H as <-. cbn [forallb py_ok andb]. now rewrite (gens_ok b Hb _ _ _ pb Eb), (gens_ok e He _ _ _ pe Ee).
+    - exact (gens_ok b Hb _ _ _ t H).
+    - exact (gens_ok b Hb _ _ _ t H).
+    - destruct (nodupb ps) eqn:E; [|discriminate]. destruct (gens false false false b) as [pb|] eqn:Eb; [|discriminate].
+      injection H as <-. cbn [forallb py_ok andb]. rewrite (nodupb_map _ (specials_nodup ps b E)), (gens_ok b Hb _ _ _ pb Eb). reflexivity.
+    - destruct (nodupb ps) eqn:E; [|discriminate].
+      destruct (gens false false false b) as [pb|] eqn:Eb; [|discriminate].
+      destruct (gen_call true lf bf k) as [pc|] eqn:Ec; [|discriminate].
+      injection H as <-. cbn [forallb py_ok andb]. rewrite (nodupb_map _ (specials_nodup ps b E)), (gens_ok b Hb _ _ _ pb Eb), (gen_call_ok _ _ _ _ il pc Ec). reflexivity.
+    - destruct (gens false false true b) as [pb|] eqn:Eb; [|discriminate].
+      injection H as <-. cbn [forallb py_ok andb]. now rewrite (gens_ok b Hb _ _ _ pb Eb).
   Qed.
 End Wf.
